@@ -1,0 +1,29 @@
+//go:build verif
+
+package graphql
+
+// Verification hooks, compiled only with -tags verif.  A test controller may
+// install VerifYield to observe (and pause) the client's goroutines at named
+// points, and VerifPanic to be told about a panic in the background reader
+// instead of the process dying.
+
+// VerifYield, if set, is called at each named scheduling point.
+var VerifYield func(point string)
+
+// VerifPanic, if set, receives a panic value recovered in the reader goroutine.
+var VerifPanic func(v interface{})
+
+func verifYield(point string) {
+	if f := VerifYield; f != nil {
+		f(point)
+	}
+}
+
+func verifRecover() {
+	if VerifPanic == nil {
+		return
+	}
+	if r := recover(); r != nil {
+		VerifPanic(r)
+	}
+}
